@@ -38,7 +38,14 @@ def main():
     if "--jobs" in sys.argv:
         jobs = int(sys.argv[sys.argv.index("--jobs") + 1]); args = [a for a in args if a != str(jobs)]
     work = []
-    for kind, sub in (("mutant", "mutants"), ("harmless", "harmless")):
+    if "--seeded" in sys.argv:
+        # independently produced property-breaking changes (sub-agents): report which checks catch which
+        for sd in sorted(glob.glob(os.path.join(VD, "seeded", "C*-m*"))):
+            prop = os.path.basename(sd).split("-")[0]
+            if args and prop not in args and os.path.basename(sd) not in args:
+                continue
+            work.append(("mutant", prop, os.path.join(sd, "patch.diff")))
+    for kind, sub in (() if "--seeded" in sys.argv else (("mutant", "mutants"), ("harmless", "harmless"))):
         for pd in sorted(glob.glob(os.path.join(VD, "selftest", sub, "C*"))):
             prop = os.path.basename(pd)
             if args and prop not in args:
@@ -48,7 +55,8 @@ def main():
     bad = 0
     with concurrent.futures.ThreadPoolExecutor(max_workers=jobs) as ex:
         for kind, prop, patch, res, out in ex.map(lambda w: run_one(*w), work):
-            print(f"{res:8s} {kind:8s} {prop} {os.path.basename(patch)}")
+            label = os.path.basename(patch) if not patch.endswith("patch.diff") else os.path.basename(os.path.dirname(patch))
+            print(f"{res:8s} {kind:8s} {prop} {label}")
             if res != "ok":
                 bad += 1
                 print("    " + out.replace("\n", "\n    "))
